@@ -240,7 +240,7 @@ def run_worker(inputs, tag, seed, nvals, with_model):
         if os.path.exists(p):
             os.remove(p)
     ov = go_overlay(HARNESS, "c14")
-    recs, note, restarts = {}, "", 0
+    recs, note, restarts, free_restarts = {}, "", 0, 0
     skip = 0
     pos = 0
     while skip < len(inputs) and restarts < MAX_RESTARTS:
@@ -316,10 +316,16 @@ def run_worker(inputs, tag, seed, nvals, with_model):
             tail = ""
         if done:
             break
-        restarts += 1
         if killed is not None:
+            # only kills of judged inputs count against the restart budget: beyond the bound a kill is expected
+            est = recs.get(killed, {}).get("est")
+            if est is None or est <= BOUND:
+                restarts += 1
+            else:
+                free_restarts += 1
             skip = killed + 1
             continue
+        restarts += 1
         # died without telling: attribute to the input in flight, or give up
         if cur is not None:
             recs.setdefault(cur, {}).update({"status": "died", "tail": tail[-600:]})
@@ -327,7 +333,11 @@ def run_worker(inputs, tag, seed, nvals, with_model):
             continue
         note = "worker could not be run: " + tail[-1500:]
         break
+    RESTART_INFO["judged"], RESTART_INFO["not_judged"] = restarts, free_restarts
     return recs, min_, restarts, note
+
+
+RESTART_INFO = {"judged": 0, "not_judged": 0}
 
 
 def pct(xs, p):
@@ -362,6 +372,7 @@ def main(tier, seed, replay=None):
         inputs += gi
         regs += gr
     recs, model_in, restarts, note = run_worker(inputs, "main", seed, 12, have_model)
+    rinfo = dict(RESTART_INFO)
     # model on the accepted inputs: must not run out of fuel / reach a panic branch
     model = {}
     if exe and os.path.exists(model_in):
@@ -487,7 +498,7 @@ def main(tier, seed, replay=None):
         "evaluations": len(inputs),
         "distinct_nontrivial": len(distinct),
         "rule": "seeded inputs: well-formed queries (all filter kinds, depth<=4), arithmetic with repeated variables (factors != +-1), value lists up to 2000 entries, nesting depth 5-8, negated disjunctions, random token sequences of the lexer vocabulary, byte-level mutations (insert/delete/replace/duplicate/bit flip, non-UTF-8 included), %d hand-written malformed values and their mutations; each parsed in a subprocess under a %.1fs watchdog, accepted ones parsed twice and compared on 12 valuations; non-trivial = accepted input with >= 2 conjuncts, distinct by bytes" % (len(BADVALUES), WATCHDOG_S),
-        "inputs": len(inputs), "verdicts": counts, "per_regime": per_regime, "worker_restarts": restarts,
+        "inputs": len(inputs), "verdicts": counts, "per_regime": per_regime, "worker_restarts": rinfo,
         "parsed_twice_and_compared": twice,
         "judged_bound_conjuncts": BOUND,
         "promptness_by_estimated_intermediate_size": prompt,
@@ -502,5 +513,6 @@ def main(tier, seed, replay=None):
                    ["termination/promptness judged only where every intermediate normal form has at most %d conjuncts (negating a large disjunction is exponential by construction)" % BOUND,
                     "lexer, grammar, value parsers and regexp compile: library code, watched not modelled"],
                    time.time() - t0, nviol)
+    restarts = rinfo["judged"] + rinfo["not_judged"]
     log("C14: %d inputs, %s, restarts %d, twice %d, promptness %s, %.1fs" % (len(inputs), counts, restarts, twice, prompt, time.time() - t0))
     return 1 if nviol else 0
